@@ -27,11 +27,11 @@ CHECKS = {
     ),
     "C03": dict(
         level="exploration",
-        technique="deviation-bounded enumeration (k<=1 quick, k<=2 thorough) of files produced by independent writers for 14 formats + exhaustive (budgeted) single-token metamorphic substitution on generated and corpus files of all format modules, on the real load_one/load_many",
-        text="Independent writers following the public layouts (XYZ, extXYZ, PDB, MOL2, SDF, GRO, CRD, POSCAR, CHGCAR, LOCPOT, cube, Gaussian input, FCIDUMP, Gaussian log) with counters crossing their widths, column-filling/touching "
+        technique="deviation-bounded enumeration (k<=1 quick, k<=2 thorough) of files produced by independent writers for 17 formats (incl. FCHK, WFN, WFX with orbital values evaluated from the file tables) + exhaustive (budgeted) single-token metamorphic substitution on generated and corpus files of all format modules, on the real load_one/load_many",
+        text="Independent writers following the public layouts (FCHK, WFN, WFX, XYZ, extXYZ, PDB, MOL2, SDF, GRO, CRD, POSCAR, CHGCAR, LOCPOT, cube, Gaussian input, FCIDUMP, Gaussian log) with counters crossing their widths, column-filling/touching "
         "fields, negative and wide values, every bond type, block boundaries, header variants; every loaded attribute compared with the model. Metamorphic: each uniquely locatable numeric token replaced by another value of the same width; "
         "the attribute element that held it must take the new value under the format's unit map.",
-        note="hand-typed CODATA factors (5e-9 relative slack for CODATA releases); Molden/Molekel layouts by C05's writers; FCHK/WFN/WFX/MWFN/logs by the metamorphic part and C01",
+        note="hand-typed CODATA factors (5e-9 relative slack for CODATA releases); Molden/Molekel layouts by C05's writers; MWFN and the program logs (GAMESS, ORCA, Q-Chem, CP2K) by the metamorphic part",
         design="DESIGN.md §2 C03",
     ),
     "C04": dict(
